@@ -231,6 +231,7 @@ def run(ctx):
                                   replay={"names": ["alpha.txt", "beta.txt", "secret.txt", "zeta.txt", "page.html", ".Links", ".cap/beta.txt"], "handler": "umn"})
         finally:
             tw.close()
+        metadata_conflicts_and_edits(ctx, res)
         from props import c08
         c08.big_link_file(res, "C07")        # entries hidden by blocks late in a large link file stay hidden
         c08.trailing_slash_blocks(res, "C07")   # ... and a directory hidden or renamed by 'Path=./dir/' is hidden, or listed once
@@ -258,6 +259,69 @@ def run(ctx):
     sitecorr.compare(ctx, res, ctx.n(4, 40), "C07")
     res.degraded = sorted(set(res.degraded + list(pyg.degraded)))
     return res
+
+
+def metadata_conflicts_and_edits(ctx, res):
+    """(a) a file hidden by one link file and named by another stays hidden, whichever of the two files sorts first;
+    (b) metadata edited in place (a link file rewritten, a .cap file added: the directory's own time stamp does not move)
+    shows in the first listing made after the cache lifetime has passed."""
+    import time as _time
+    from props import c10
+    tw = pyg.Tree()
+    try:
+        cfg0 = pyg.make_config(tw.root, **{"handlers.dir.DirHandler|cachetime": "0"})
+        for d, first, second in (("hx", ".Links", ".names"), ("hy", ".aaa", ".zzz")):
+            for n_ in ("notes.txt", "draft.txt", "report.txt"):
+                tw.write(d + "/" + n_, b"x\n")
+            hide, name = b"Path=./draft.txt\nType=X\n", b"Path=./draft.txt\nName=The draft, renamed\nNumb=1\n"
+            tw.write(d + "/" + first, hide if d == "hx" else name)
+            tw.write(d + "/" + second, name if d == "hx" else hide)
+            for view_p in ("gopher", "http", "gemini"):
+                r = pyg.request(reqs.build(view_p, "/" + d), cfg0, tls=reqs.TLS[view_p])
+                res.evaluations += 1
+                res.nontrivial.add(("hide-and-name", d, view_p))
+                if b"draft" in (r.out or b"") or b"notes" not in (r.out or b""):
+                    res.violation("C07:listed-though-hidden:umn", "a file hidden by one link file is listed because another link file names it",
+                                  {"dir": d, "files": {first: "hide" if d == "hx" else "name", second: "name" if d == "hx" else "hide"}, "view": view_p},
+                                  observed=(r.out or b"")[:300], required="notes.txt and report.txt only",
+                                  replay={"names": ["notes.txt", "draft.txt", "report.txt", first, second], "handler": "umn"})
+        # (b) in-place edits, shipped cache lifetime, the clock moved past it
+        cfg_c = pyg.make_config(tw.root)
+        life = cfg_c.getint("handlers.dir.DirHandler", "cachetime")
+        for hname, handlers in (("umn", None), ("dir", pyg.DIR_HANDLERS)):
+            cfg_h = pyg.make_config(tw.root, handlers)
+            d = "ed" + hname
+            for n_ in ("alpha.txt", "bravo.txt", "delta.txt"):
+                tw.write(d + "/" + n_, b"x\n")
+            tw.write(d + "/.names", b"Path=./bravo.txt\nType=X\n# padding so that the rewrite below has the same length...........\n")
+            tw.mkdir(d + "/.cap")
+            before = pyg.request(reqs.build("gopher", "/" + d), cfg_h).out
+            dstat = os.stat(tw.path(d))
+            # rewrite the link file in place (same length, same inode) and add a .cap file: the directory's mtime stays
+            with open(tw.path(d + "/.names"), "r+b") as f_:
+                f_.write(b"Path=./delta.txt\nType=X\n# now delta is the hidden one, bravo is back...............\n")
+            tw.write(d + "/.cap/alpha.txt", b"Name=Alpha renamed by cap\n")
+            os.utime(tw.path(d), ns=(dstat.st_atime_ns, dstat.st_mtime_ns))
+            clock = c10.Clock()
+            clock.ms = int((_time.time() + life + 5) * 1000)
+            old = c10.set_clock(clock)
+            try:
+                after = pyg.request(reqs.build("gopher", "/" + d), cfg_h).out
+            finally:
+                c10.restore_clock(old)
+            cpath = tw.path(d + "/" + cfg_h.get("handlers.dir.DirHandler", "cachefile"))
+            if os.path.exists(cpath):
+                os.unlink(cpath)
+            fresh = pyg.request(reqs.build("gopher", "/" + d), cfg0 if handlers is None else pyg.make_config(tw.root, handlers, **{"handlers.dir.DirHandler|cachetime": "0"})).out
+            res.evaluations += 3
+            res.nontrivial.add(("in-place-edit", hname))
+            if after != fresh or (hname == "umn" and after == before):
+                res.violation("C07:stale-after-lifetime:" + hname, "metadata edited in place does not show in a listing made after the cache lifetime",
+                              {"dir": d, "handler": hname, "edits": [".names rewritten in place", ".cap/alpha.txt added"], "seconds_after": life + 5},
+                              observed=(after or b"")[:300], required=(fresh or b"")[:300],
+                              replay={"names": ["alpha.txt", "bravo.txt", "delta.txt", ".names", ".cap/alpha.txt"], "handler": hname})
+    finally:
+        tw.close()
 
 
 def replay(data):
